@@ -222,7 +222,14 @@ func (r *runner) doAppend(v []byte) (ok bool) {
 				r.fail("predict-panic", fmt.Sprintf("CalculateRootFromAppendPath at size %d: %v", oldSize, e))
 			}
 		}()
-		pred = rmt.CalculateRootFromAppendPath(v, copyList(r.tr.AppendPath()), oldSize)
+		// the prediction is given the tree's own append path, as a caller holding the tree would do; it is a
+		// pure function of its arguments, so the path (and with it the live tree) must come back unchanged
+		live := r.tr.AppendPath()
+		before := copyList(live)
+		pred = rmt.CalculateRootFromAppendPath(v, live, oldSize)
+		if !eqList(before, live) || !eqList(before, r.tr.AppendPath()) {
+			r.fail("predict-mutated-append-path", fmt.Sprintf("CalculateRootFromAppendPath at size %d changed the append path it was given: %s -> %s", oldSize, hexList(before), hexList(r.tr.AppendPath())))
+		}
 	}()
 	if err := r.tr.Append(v); err != nil {
 		r.fail("append-error", fmt.Sprintf("size %d: %v", oldSize, err))
@@ -467,7 +474,12 @@ func (r *runner) step(op string) string {
 		if len(w) > 1 {
 			v = corr.UnHex(w[1])
 		}
-		pred := rmt.CalculateRootFromAppendPath(v, copyList(r.tr.AppendPath()), r.tr.Size())
+		livePath := r.tr.AppendPath()
+		pathBefore := copyList(livePath)
+		pred := rmt.CalculateRootFromAppendPath(v, livePath, r.tr.Size())
+		if !eqList(pathBefore, r.tr.AppendPath()) {
+			r.fail("predict-mutated-append-path", fmt.Sprintf("CalculateRootFromAppendPath at size %d changed the append path it was given: %s -> %s", r.tr.Size(), hexList(pathBefore), hexList(r.tr.AppendPath())))
+		}
 		hs := append(append([][]byte{}, r.hashes...), refLeaf(v))
 		c := newRefCache()
 		if want := c.root(hs, 0, len(hs)); !bytes.Equal(want, pred.Root) {
